@@ -135,7 +135,8 @@ def run(ctx):
     ctx.rule = ("scenarios = (sequence of <= MaxMsgs messages from a pool of 7: empty, scalar, nested + empty optional, packed + bytes that look "
                 "like fields, another type, a type whose fields the older reader does not know, empty of another type) x every cut point "
                 "0..len(stream) x reader schema same/older, enumerated by TLC on spec/Stream.tla and replayed on io.BytesIO; plus seeded "
-                "random sequences of random Wide-family values with random cuts; non-trivial = at least one non-empty message or a real cut")
+                "random sequences of random Wide-family values with random cuts; plus histories in which one object is written again and "
+                "again while it is changed in place in between (frame prefix and read-back judged after every call); non-trivial = at least one non-empty message or a real cut")
     ctx.assumptions = ["google.protobuf.proto.serialize_length_prefixed / parse_length_prefixed is the reference framing",
                        "after a load raised, the stream position is unspecified and later loads are not judged"]
     s, msgs = pool()
@@ -182,6 +183,10 @@ def run(ctx):
     for c, e in zip(rcases, ev2):
         ctx.count_case((repr(c[0]), c[2]), True)
     ctx.validate("Trace_Stream", ev2, header={"schema": w["schema"]}, shard=300)
+    # one object written repeatedly while it is changed in between (assignments, in-place container / sub-message mutations,
+    # parses into it, copies): after every call its frame must carry the right prefix and read back, twice, as the current value
+    from .. import hist
+    hist.run_histories(ctx, ["TRep", "TMapV", "TMix", "TOne", "TOpt", "Node"], 300 if quick else 8000, 9, "inplace", judge_len=True)
 
 
 def wide_event(args):
